@@ -161,6 +161,17 @@ def gen_C02(tier, seed):
     reqs += _enum_small(["std"], ["find", "iter"], ["nc.d.1.0.b", "c.0.0.0.b", "dfa.d.1.0.u"],
                         maxp=2, maxplen=2, maxhay=(3 if q else 5))
     reqs += _find_like(g, qn(q, 250, 2500), ["std"], ["find", "iter"], cf)
+    # the default builder enables prefilters (standard semantics: memmem / start bytes / rare bytes): every iterator step
+    # after the first is a search from a non-zero span start
+    for _ in range(qn(q, 80, 800)):
+        pats = pre_pats(g)
+        for _ in range(2):
+            hay = pre_hay(g, pats)
+            kv = {"mk": "std", "pats": hxlist(pats), "hay": hx(hay), "cfgs": cfgs(CFG_PRE + ["auto.d.1.1.b"])}
+            op = g.rng.choice(["find", "iter", "iter"])
+            if op == "find" and len(hay) > 2:
+                kv["s"] = g.rng.randint(1, len(hay) - 1); kv["e"] = g.rng.randint(kv["s"], len(hay))
+            reqs.append(fmt_req(op, kv))
     certs = _fixed_certs(["std"], CORPUS_LISTS) + _certs(g, qn(q, 150, 600), ["std"])
     return {"reqs": reqs, "certs": certs, "first": True, "gen": g, "modes": "0", "l1c": True}
 
@@ -897,6 +908,18 @@ def gen_C20(tier, seed):
             kv["fold"] = 1
         reqs.append(fmt_req("meta", kv))
         reqs.append(fmt_req("selfcheck", kv))
+    # memory_usage() against the sizes of the transcribed automata (states, sparse / matches / dense side vectors,
+    # repr, DFA table): the counters the build-limit theorems (C20_build_*) are stated over
+    memc = ["nc.d.1.0.b", "nc.0.1.0.b", "nc.1.1.0.b", "nc.9.1.0.b", "c.d.1.0.b", "c.0.0.0.b", "c.3.1.0.b", "c.9.0.0.b",
+            "dfa.d.1.0.u", "dfa.d.0.0.a", "dfa.d.1.0.b", "dfa.d.0.0.b"]
+    for _ in range(qn(q, 50, 600)):
+        pats = g.pats(kinds=["tiny", "tiny3", "nest", "akb", "suffix_chain", "fanout_small", "casey", "random_bytes", "periodic"])
+        kv = {"mk": g.rng.choice(["std", "lf", "ll"]), "pats": hxlist(pats), "cfgs": cfgs(memc)}
+        if g.rng.random() < 0.3:
+            kv["fold"] = 1
+        reqs.append(fmt_req("memusage", kv))
+    for pats in shapes[:6] + [fanout_exact(g, w, 2) for w in (127, 128, 254, 256)]:
+        reqs.append(fmt_req("memusage", {"mk": "std", "pats": hxlist(pats), "cfgs": cfgs(memc)}))
     # fan-outs at which a state's encoding switches (every pattern must still be found with its own id)
     for w in FANOUT_EDGE_WIDTHS:
         for (pl, wp) in ((1, False), (3, True)):
@@ -1002,6 +1025,21 @@ def gen_C19(tier, seed):
                     ko["anch"] = 1
                 ko["n"] = 2 + min(40, (len(pats) + 1) * (len(hay) + 1))
                 reqs.append(fmt_req("cost", ko))
+    # stream searches: the transitions of a whole search, for many refills (small reads, little spare room) and long
+    # patterns (what a refill could re-scan is as long as the longest pattern)
+    for _ in range(qn(q, 60, 600)):
+        k = g.rng.randint(2, 30)
+        pats = g.rng.choice([[b"a" * k + b"b", b"aab", b"cc"], [b"a" * k + b"b"], g.akb(), g.suffix_chain()])
+        pats = [p for p in pats if p] or [b"ab"]
+        data = b"".join(g.rng.choice([b"a" * g.rng.randint(1, k + 3), b"b", b"c", b"cc", b"x"]) for _ in range(g.rng.randint(3, 30)))
+        sched, left = [], len(data)
+        while left > 0:
+            n = g.rng.choice([1, 1, 2, 3, 5, 7, 64])
+            sched.append(n); left -= n
+        kv = {"api": "stream", "mk": "std", "pats": hxlist(pats), "hay": hx(data),
+              "sched": ",".join(map(str, sched)) if sched else ".", "spare": g.rng.choice([1, 1, 2, 5, 8 * max(len(p) for p in pats)]),
+              "cfgs": cfgs(["nc.d.1.0.b", "c.d.1.0.b", "dfa.d.1.0.u", "auto.d.1.0.u", "tc.d.1.0.u"])}
+        reqs.append(fmt_req("cost", kv))
     allc = ["nc.d.1.0.b", "nc.0.1.0.b", "c.d.1.0.b", "c.0.0.0.b", "c.2.1.0.b", "c.9.0.0.b", "dfa.d.1.0.b", "dfa.d.0.0.u"]
     certs = _fixed_certs(["std", "lf", "ll"], CORPUS_LISTS + [[b"a" * 8 + b"b"], [b"aaab", b"aab", b"ab", b"b"]], cfgl=allc)
     certs += _certs(g, qn(q, 40, 500), ["std", "lf", "ll"], fold=0.25,
